@@ -7,7 +7,7 @@ pid, wt, name, needs, detected = sys.argv[1:6]
 env = dict(os.environ, PYTHONPATH=wt, PYTHONHASHSEED='0', TQDM_DISABLE='1')
 def sh(cmd, **kw):
     return subprocess.run(cmd, shell=True, cwd=wt, env=env, capture_output=True, text=True, **kw)
-demo = sorted(glob.glob(os.path.join(wt, 'demo_*.py')))[0]
+demo = sorted(glob.glob(os.path.join(wt, "demo_*.py")))[0]
 patch = os.path.join(wt, 'patch.diff')
 sh('git checkout -- polyply')
 assert sh(f'git apply {patch}').returncode == 0, 'patch does not apply'
